@@ -29,7 +29,7 @@ ASSUMPTIONS = [
     "tasks / timers created by the harness (user-call runners, the scenario driver) are excluded by identity; every other live task or pending TimerHandle belongs to the client",
 ]
 PROBES = ["c15.during_connect_latency", "c15.during_backoff", "c15.mid_handshake", "c15.message_pending", "c15.at_heartbeat", "c15.after_fault",
-          "c15.reinit", "c15.reinit_changed_installation", "c15.socket_class", "c15.shutdown_twice", "c15.quick_reinit_with_pending", "c15.heartbeat_after_reinit"]
+          "c15.reinit", "c15.reinit_changed_installation", "c15.socket_class", "c15.shutdown_twice", "c15.quick_reinit_with_pending", "c15.heartbeat_after_reinit", "c15.during_slow_reset"]
 
 
 def budget(tier: str) -> int:
@@ -81,7 +81,21 @@ def generate(rng, index: int, tier: str) -> dict:
         tl.append({"at": t0, "op": "user.open"})
     else:
         tl.append({"at": t0, "op": "user.init"})
-    if where == "after_fault":
+    if where == "after_fault" and rng.random() < 0.3:
+        # a reset that cannot finish quickly: the transport still holds unflushed bytes (flow control),
+        # the peer closes, the client's reset waits for the transport to close - and shutdown lands there
+        dur = rng.choice([0.5, 2.0])
+        t_st = t_s - rng.choice([0.125, 0.25])
+        tl.append({"at": t_st - 0.25, "op": "net.stall", "on": True})
+        tl.append({"at": t_st - 0.25 + dur + 1.0, "op": "net.stall", "on": False})
+        if sock:
+            tl.append({"at": t_st - 0.125, "op": "user.send", "msg": sendq.distinct_messages(rng, gen, 1)[0], "policy": "idem"})
+        else:
+            tl.append({"at": t_st - 0.125, "op": "user.api", "target": ["at"], "call": "check_for_updates", "args": {}})
+        tl.append({"at": t_st, "op": "net.fates", "fates": [{"kind": "accept", "latency": 0.0}]})
+        tl.append({"at": t_st, "op": rng.choice(["net.fin", "net.fin", "console.raw"]), "hex": "00" * 24})
+        info["reset_in_progress"] = True
+    elif where == "after_fault":
         kind = rng.choice(["fin", "rst", "write"])
         gap = rng.choice([0.0, G.EPS, lat, lat + G.EPS, 0.5, 1.0, 2.0, 2.0 + G.EPS])
         recon = rng.choice([[{"kind": "accept", "latency": rng.choice([0.0, 0.5, 3.0])}], [{"kind": "refuse", "latency": 0.0}, {"kind": "accept", "latency": 0.0}],
@@ -112,6 +126,8 @@ def generate(rng, index: int, tier: str) -> dict:
         info["twice"] = True
     # mostly >= 1000 idle seconds; sometimes a quick re-init while queued messages would still be alive
     idle = rng.choice([1000.0, 1000.0, 1500.0, 2.0, 10.0])
+    if info.get("reset_in_progress") and idle < 10.0:
+        idle = 10.0
     t_idle_end = t_s + idle
     info["idle"] = idle
     # sending after shutdown must raise the not-open error
@@ -163,7 +179,15 @@ def execute(sc: dict) -> dict:
     stop = next((c for c in w.calls if c["step"].get("stop")), None)
     if stop is None or stop["t_call"] is None:
         return common.result(w, V, nontrivial=False)
+    # flow control: while the peer's window stays closed a transport with unflushed bytes cannot finish closing, and
+    # close()/shutdown() waits for it (as on a real socket); nothing is required of a call that has not returned yet
+    stalled_until = 0.0
+    for st in sc["timeline"]:
+        if st["op"] == "net.stall":
+            stalled_until = float("inf") if st.get("on", True) else st["at"]
     if stop["t_ret"] is None:
+        if stalled_until == float("inf"):
+            return common.result(w, V, nontrivial=False, probes=probes)
         V.append(viol("C15.shutdown_hangs", {"t_call": stop["t_call"]}))
         return common.result(w, V, nontrivial=True, probes=probes)
     if stop["exc"] is not None:
@@ -211,6 +235,8 @@ def execute(sc: dict) -> dict:
     if info.get("where") == "after_fault":
         probes["c15.after_fault"] = 1
         nontrivial = True
+    if info.get("reset_in_progress"):
+        probes["c15.during_slow_reset"] = 1
     if info.get("twice"):
         probes["c15.shutdown_twice"] = 1
     if info.get("where") == "pending" and info.get("idle", 1000.0) < 20.0 and info.get("reinit"):
@@ -233,6 +259,10 @@ def execute(sc: dict) -> dict:
             break
     # 2. leak check at the end of the idle period
     leak = next((l for l in w.leaks if l["label"] == "idle_end"), None)
+    if leak is not None and stop["t_ret"] > leak["t"]:
+        if leak["t"] > stalled_until + 1.0:
+            V.append(viol("C15.shutdown_hangs", {"t_call": stop["t_call"], "t_ret": stop["t_ret"]}))
+        leak = None
     if leak is not None and not V:
         # a user call that has not returned yet (init() inside its own 5 s wait) owns its timeout timer
         busy_init = [w.calls[i] for i in leak["busy_user_calls"] if w.calls[i]["op"] == "user.init"]
